@@ -70,3 +70,9 @@ ASSUME.update({
          "confidentiality of ciphertext bytes and of blob names is not proved (raw scan of everything written below the store is a test)",
          "ReceiveBlob is atomic in the model; the wrapped stores and the meta index are maps (C01, C10)"],
 })
+ASSUME.update({
+ "C17": ["a blob is abstracted to: share claim (target, transitive, expired) / schema blob with its genuine links per field / other; JSON and schema parsing (schema.BlobFromReader, AsShare, IsExpired against the clock) are exercised, not modelled",
+         "deletion status is what index.IsDeleted reports (C07/C06); the 1 MiB size limits are not generated",
+         "the translator reports which schema accessors bytesHaveSchemaLink calls, not how it uses their results (the correspondence run covers that)",
+         "pkg/auth's credential checks are exercised, not modelled; auth modes that admit requests without credentials are out of scope"],
+})
